@@ -816,14 +816,14 @@ def argDispatch (op : String) : List (String × DTmpl) :=
             ifs skip (bin "==" (len (v 2)) (p 3))
               s[asg e[v 3] ":=" e[kc op e[v 2]], set r0 (call "append" e[r0, v 3]), reset (v 2)] s[]],
         noOp (v 4), ret e[]]⟩),
-    -- ODDITY (uniform): the masked kernel is called with the whole `mask`, not the collected `tmpMask`
+    -- the masked kernel is called with the mask bits collected along the lane (`newMask`, v 0)
     (op ++ "IterMasked", ⟨frameOf [hdrT, sBool, itT, intT] e[sliceTy intT, errT]
         s[asg e[v 0] ":=" e[call "make" e[sBool, lit0, p 4]], var e[v 1] intT e[]] unsupp2, fun c => armIf c.isOrd
       s[asg e[v 2] ":=" e[acc "p1"], asg e[v 3] ":=" e[call "make" e[sT, lit0, p 4]],
         for_ (next (v 1) "p3") (bin "==" r1 nil_) (next (v 1) "p3")
           s[set (v 3) (call "append" e[v 3, idx (v 2) (v 1)]), set (v 0) (call "append" e[v 0, idx (p 2) (v 1)]),
             ifs skip (bin "==" (len (v 3)) (p 4))
-              s[asg e[v 4] ":=" e[kc (op ++ "Masked") e[v 3, p 2]], set r0 (call "append" e[r0, v 4]),
+              s[asg e[v 4] ":=" e[kc (op ++ "Masked") e[v 3, v 0]], set r0 (call "append" e[r0, v 4]),
                 reset (v 3), reset (v 0)] s[]],
         noOp (v 5), ret e[]]⟩),
     (op ++ "FlatMasked", ⟨frameOf [hdrT, sBool] e[intT] s[] e[un "-" lit1], fun c => armIf c.isOrd
